@@ -600,11 +600,6 @@ impl Stdfs {
             return Ok(());
         }
 
-        // Copying something into its own subtree would never converge
-        if dst_root.starts_with(&src_root) {
-            return Err(format!("can't copy {} into itself {}", src_root.display(), dst_root.display()).as_str().into());
-        }
-
         // Determine the given modes
         let dir_mode = match cp.mode {
             Some(x) if cp.cdirs || !cp.cfiles => Some(x),
@@ -620,6 +615,7 @@ impl Stdfs {
 
         // Iterate over source taking into account link following
         let src_root = StdfsEntry::from(&src_root)?.follow(cp.follow);
+        // Copying something into its own subtree would never converge
         if dst_root == src_root.path() {
             return Ok(());
         } else if dst_root.starts_with(src_root.path()) {
